@@ -154,14 +154,17 @@ class Report:
         for kid, (k, os_) in matched.items():
             lines.append(f"KNOWN-FINDING: property={self.prop} {k['text']} [{len(os_)} obligation(s), e.g. {os_[0].ident}]")
         code = 0
-        rdir = os.path.join(paths.VERIF, 'replays', self.prop)
+        rdir = os.path.join(os.environ.get('VERIF_REPLAY_DIR') or os.path.join(paths.VERIF, 'replays'), self.prop)      # VERIF_REPLAY_DIR: harnesses that run checks in parallel
         # faults: loop-free unit whose counter-model does not reproduce natively
         faults = list(disagree)
         if viol:
             os.makedirs(rdir, exist_ok=True)
             for f in os.listdir(rdir):
                 if f.endswith('.json'):
-                    os.remove(os.path.join(rdir, f))
+                    try:
+                        os.remove(os.path.join(rdir, f))
+                    except FileNotFoundError:
+                        pass
             # reproduced counterexamples first; at most 12 lines (the evidence file and replays/ hold the rest)
             viol.sort(key=lambda o: 0 if (o.replay or {}).get('reproduced') else 1)
             for i, o in enumerate(viol[:12]):
